@@ -78,16 +78,28 @@ def make_pairs(tier, rng):
             sel = rng.sample(outs, rng.randint(1, min(2, len(outs))))
         elif r < 0.4:
             sel = ["**"]
+        paused = False
+        if rng.random() < 0.15:      # a run that PAUSES: some data-producing function becomes an interrupt
+            cand = [n for n in prog["nodes"] if n["kind"] == "func" and n["ndata"] >= 1 and n["inputs"] and not n["fail_at"] and n["name"] not in prog["entry"]]
+            if cand:
+                n = rng.choice(cand)
+                n["kind"], n["pause_at"], n["fn"] = "interrupt", [1], "term"
+                if n["defaults"]:
+                    continue
+                paused = True
         try:
             prov = build.suggest_inputs(prog, rng)
         except Exception:  # noqa: BLE001 - construction rejected
             continue
-        j = gen.job(0, prog, prov, mode=rng.choice(["sync", "async"]), select=sel)
+        j = gen.job(0, prog, prov, mode="async" if paused else rng.choice(["sync", "async"]), select=sel)
         j["on_missing"] = rng.choice(["ignore", "warn", "error"])
+        # history: every graph object the scoped graph was derived from has already been run once
+        j["warm"] = bool(prog["entry"] or prog["selected"] != IR.UNSET or prog["bound"]) and rng.random() < 0.3
         o, _, _ = predict.try_real(j, on_missing=j["on_missing"])
         if "rejected" in o:
             continue
-        pairs.append((j, ("entry" if prog["entry"] else "all") + "/" + ("sel" if sel else "nosel") + "/" + j["on_missing"]))
+        pairs.append((j, ("entry" if prog["entry"] else "all") + "/" + ("sel" if sel else "nosel") + "/" + j["on_missing"]
+                      + ("/pausing" if paused else "") + ("/warm" if j["warm"] else "")))
     for i, (j, _) in enumerate(pairs):
         j["id"] = i + 1
     return pairs
@@ -133,17 +145,18 @@ def run(tier, seed):
     ctx = Ctx(PID, tier, seed, "model_checking")
     rng = random.Random(seed)
     pairs = make_pairs(tier, rng)
-    selftest(ctx, pairs)
     for j, _ in pairs:
         if j["prog"]["entry"] or j["select"] != IR.UNSET or j["prog"]["selected"] != IR.UNSET:
             ctx.distinct(IR.struct_hash([j["prog"], j["provided"], j["mode"], j["select"], j["on_missing"]]))
     reals = evaluate(ctx, pairs)
+    if not ctx.violations:
+        selftest(ctx, pairs)       # binding self-test needs a tree on which the recorded traces are good
     mid = pairs[len(pairs) // 2][0]
     ctx.sample({"entry": mid["prog"]["entry"], "selected": mid["prog"]["selected"], "select": mid["select"], "on_missing": mid["on_missing"],
                 "nodes": [(n["name"], n["inputs"], n["outputs"]) for n in mid["prog"]["nodes"]], "values": reals[mid["id"]].get("values")})
     ctx.assumptions += ["upper bound of the entry-point scope uses DECLARED dependencies (any producer of a name, gate->target, producer->waiter): HGProps!Downstream",
                         "inputs are chosen from the implementation's own input spec (the input contract is C08's subject)"]
-    return ctx.finish(rule="seeded random DAG/gated/cyclic programs x entry-point sets (1-2 non-gate nodes) x graph-level select x run-time select (names or '**') x on_missing in {ignore,warn,error} x runner, including failing nodes (partial results); non-trivial = some entry point or selection configured; distinct = structural hash")
+    return ctx.finish(rule="seeded random DAG/gated/cyclic programs x entry-point sets (1-2 non-gate nodes) x graph-level select x run-time select (names or '**') x on_missing in {ignore,warn,error} x runner, including failing nodes (partial results) and pausing interrupts (async), and derivation histories in which every parent graph object was run before the scoped graph was derived from it; non-trivial = some entry point or selection configured; distinct = structural hash")
 
 
 def replay(path):
